@@ -1,0 +1,133 @@
+//go:build verif
+
+// Package verifhook holds the seams used by the deterministic-simulation
+// harness kept outside this repository. With the "verif" build tag each
+// function forwards to a package-level function variable that the harness
+// sets; a nil variable means "do nothing".
+package verifhook
+
+import (
+	"fmt"
+	"io"
+	"net/http"
+	"os"
+	"strconv"
+	"strings"
+	"sync"
+	"syscall"
+)
+
+// Enabled reports whether the hooks are compiled in.
+const Enabled = true
+
+var (
+	// YieldFn is called before shared-state operations of the transfer
+	// queue and adapters; n is -1 when the site has no worker number.
+	YieldFn func(point string, inst interface{}, n int)
+	// LockFn / UnlockFn bracket mutexes that are held across blocking
+	// operations.
+	LockFn   func(point string, inst interface{})
+	UnlockFn func(point string, inst interface{})
+	// EventFn records history events for the oracles.
+	EventFn func(kind string, inst interface{}, oid string, a []interface{})
+	// CrashFn is called before storage-mutating steps.
+	CrashFn func(point string)
+	// TransportFn may replace the HTTP connection layer.
+	TransportFn func(scheme, host string) http.RoundTripper
+	// WrapReaderFn / WrapWriterFn may wrap copy streams.
+	WrapReaderFn func(r io.Reader) io.Reader
+	WrapWriterFn func(w io.Writer) io.Writer
+)
+
+func Yield(point string, inst interface{}) {
+	if f := YieldFn; f != nil {
+		f(point, inst, -1)
+	}
+}
+
+func YieldN(point string, inst interface{}, n int) {
+	if f := YieldFn; f != nil {
+		f(point, inst, n)
+	}
+}
+
+func Lock(point string, inst interface{}) {
+	if f := LockFn; f != nil {
+		f(point, inst)
+	}
+}
+
+func Unlock(point string, inst interface{}) {
+	if f := UnlockFn; f != nil {
+		f(point, inst)
+	}
+}
+
+func Event(kind string, inst interface{}, oid string, a ...interface{}) {
+	if f := EventFn; f != nil {
+		f(kind, inst, oid, a)
+	}
+}
+
+func Crash(point string) {
+	if f := CrashFn; f != nil {
+		f(point)
+	}
+}
+
+func Transport(scheme, host string) http.RoundTripper {
+	if f := TransportFn; f != nil {
+		return f(scheme, host)
+	}
+	return nil
+}
+
+func WrapReader(r io.Reader) io.Reader {
+	if f := WrapReaderFn; f != nil {
+		return f(r)
+	}
+	return r
+}
+
+func WrapWriter(w io.Writer) io.Writer {
+	if f := WrapWriterFn; f != nil {
+		return f(w)
+	}
+	return w
+}
+
+// Process-level crash injection, used when the real binary is driven as a
+// sequence of processes: VERIF_CRASH=<point>:<n> kills the process with
+// SIGKILL at the n-th arrival (1-based) at <point> ("*" matches any point,
+// counted globally); VERIF_CRASH_LOG=<file> appends every point reached.
+func init() {
+	spec := os.Getenv("VERIF_CRASH")
+	logPath := os.Getenv("VERIF_CRASH_LOG")
+	if spec == "" && logPath == "" {
+		return
+	}
+	var want string
+	var wantN int
+	if i := strings.LastIndex(spec, ":"); i > 0 {
+		want = spec[:i]
+		wantN, _ = strconv.Atoi(spec[i+1:])
+	}
+	var mu sync.Mutex
+	counts := map[string]int{}
+	CrashFn = func(point string) {
+		mu.Lock()
+		defer mu.Unlock()
+		counts[point]++
+		counts["*"]++
+		if logPath != "" {
+			if f, err := os.OpenFile(logPath, os.O_APPEND|os.O_CREATE|os.O_WRONLY, 0644); err == nil {
+				fmt.Fprintf(f, "%s:%d\n", point, counts[point])
+				f.Close()
+			}
+		}
+		if want != "" && (want == point || want == "*") && counts[want] == wantN {
+			syscall.Kill(os.Getpid(), syscall.SIGKILL)
+			select {}
+		}
+	}
+}
